@@ -6,7 +6,12 @@
            -> "ok" iff Transcript.log_ok accepts the observed (abstracted) log for that shape
      ctx <eb> <main> <aux> <rands> <len> <metahex> <modulushex> <queries> <blowup> <grinding> <ext> <fold> <rem>
            -> Context::to_elements as comma separated hex integers
-   Tokens: N:CTX+PUB  R:T<i> R:CC R:OT R:OE R:F<i> R:REM  D<k>.<deg>  P:NONCE  I:NONCE:<num> *)
+     trp <p|v> <tag> <shape> | <tokens...>
+           -> "prefix-ok" iff the tokens are a prefix of the model's token list (a verifier that stopped early)
+   Shape: 12 numbers + <lagrange 0|1> <gkr draws> <log2 n>.
+   Tokens: N:CTX+PUB  R:T<i> R:CC R:OT R:OE R:F<i> R:REM  D<k>.<deg>[@G|@A]  P:NONCE  I:NONCE:<num>
+   (@G / @A: the drawn value was observed in use as GKR randomness / as ordinary auxiliary randomness; the model prints
+   them for the draws it labels GkrRand / AuxRand when the shape has a Lagrange kernel column) *)
 open Zio
 open Transcript
 
@@ -14,10 +19,11 @@ let nat s = nat_of_int (int_of_string s)
 let rec int_of_nat = function Datatypes.O -> 0 | Datatypes.S n -> 1 + int_of_nat n
 
 let shape_of = function
-  | [ a; b; c; d; e; f; g; h; i; j; k; l ] ->
+  | [ a; b; c; d; e; f; g; h; i; j; k; l; lag; gk; ln ] ->
       { sh_main_width = nat a; sh_aux_width = nat b; sh_aux_rands = nat c; sh_trans_main = nat d; sh_trans_aux = nat e;
         sh_assert_main = nat f; sh_assert_aux = nat g; sh_comp_cols = nat h; sh_ext_deg = nat i; sh_fri_layers = nat j;
-        sh_grinding = nat k; sh_queries = nat l }
+        sh_grinding = nat k; sh_queries = nat l;
+        sh_lagrange = (if lag = "1" then Some (nat gk, nat ln) else None) }
   | _ -> failwith "shape"
 
 let sym_tok = function
@@ -35,6 +41,21 @@ let ev_tok = function
   | EvDrawInts (n, num) -> Stdlib.Printf.sprintf "I:%s:%d" (sym_tok n) (int_of_nat num)
 
 let tail s k = Stdlib.String.sub s k (Stdlib.String.length s - k)
+
+(* model side: tokens of a labelled list; use tags only for Lagrange shapes *)
+let step_tok lag (e, lab) =
+  match (e, lab) with
+  | EvDraw _, Some (GkrRand _) when lag -> ev_tok e ^ "@G"
+  | EvDraw _, Some (AuxRand _) when lag -> ev_tok e ^ "@A"
+  | _ -> ev_tok e
+
+(* observed side: split a token into the event token and the observed use *)
+let split_use t =
+  match Stdlib.String.index_opt t '@' with
+  | None -> (t, UseUnobserved)
+  | Some i -> (
+      let u = tail t (i + 1) in
+      (Stdlib.String.sub t 0 i, match u with "G" -> UseGkr | "A" -> UseAux | _ -> failwith ("token:" ^ t)))
 
 let sym_of s =
   match s with
@@ -71,13 +92,22 @@ let eval = function
   | "tr" :: side :: _tag :: sh ->
       let s = shape_of sh in
       let l = if side_of side then verifier s else prover s in
-      Stdlib.String.concat " " (Stdlib.List.map (fun (e, _) -> ev_tok e) l)
+      Stdlib.String.concat " " (Stdlib.List.map (step_tok (s.sh_lagrange <> None)) l)
+  | "trp" :: side :: _tag :: rest ->
+      let sh, toks = split_bar [] rest in
+      let s = shape_of sh in
+      let l = if side_of side then verifier s else prover s in
+      let m = Stdlib.List.map (step_tok (s.sh_lagrange <> None)) l in
+      let rec pre a b = match (a, b) with [], _ -> true | x :: a', y :: b' -> x = y && pre a' b' | _ :: _, [] -> false in
+      if pre toks m then "prefix-ok" else "prefix-bad"
   | "chk" :: side :: _tag :: rest -> (
       let sh, toks = split_bar [] rest in
       let s = shape_of sh in
-      match (try Some (Stdlib.List.map ev_of toks) with Failure _ -> None) with
+      match (try Some (Stdlib.List.map (fun t -> let e, u = split_use t in (ev_of e, u)) toks) with Failure _ -> None) with
       | None -> "bad:unidentified-token"
-      | Some evs -> if log_ok (side_of side) s evs then "ok" else "bad")
+      | Some eus ->
+          let evs = Stdlib.List.map fst eus and us = Stdlib.List.map snd eus in
+          if log_ok_uses (side_of side) s evs us then "ok" else "bad")
   | [ "ctx"; eb; main; aux; rands; len; meta; modulus; q; blowup; grind; ext; fold; rem ] ->
       let z = z_of_hex in
       let ti = { ti_main = z main; ti_aux = z aux; ti_rands = z rands; ti_len = z len; ti_meta = bytes_of_hex meta } in
